@@ -629,10 +629,11 @@ MUTANTS = [
     dict(rule='C02.valid', name='override returns None early', file='sc3/synth/ugens/pan.py',
          old="    def _check_inputs(self):  # override\n        return self._check_n_inputs(3)",
          new="    def _check_inputs(self):  # override\n        if self.rate != 'audio':\n            return None\n        return self._check_n_inputs(3)"),
-    dict(rule='C02.count', name='(fix reverted) variant loop returns early', file='sc3/synth/synthdef.py',
-         old="""                        raise ValueError(
-                            f"variant '{varname}' name too long")""",
-         new="""                        return False"""),
+    dict(rule='C02.count', name='(fix reverted) variant count taken before validation', file='sc3/synth/synthdef.py',
+         old="frw.write_i16(file, len(variants))", new="frw.write_i16(file, len(self._variants))"),
+    dict(rule='C02.count', name='early return inside the counted variants loop', file='sc3/synth/synthdef.py',
+         old="            for varname, varcontrols in variants:\n                frw.write_pascal_str(file, varname)\n",
+         new="            for varname, varcontrols in variants:\n                if len(varname) > 32:\n                    return False\n                frw.write_pascal_str(file, varname)\n"),
     dict(rule='C02.valid', name='(fix reverted) AmpComp returns None', file='sc3/synth/ugens/line.py',
          old="""            return self._check_sr_as_first_input()
         else:
